@@ -311,8 +311,31 @@ func (tm *typeMatcher) compareFields(d *tlschema.Def, m *pop.Member) (diffs []st
 		if why := tm.match(q.Type, f.Type); why != "" {
 			diffs = append(diffs, sprintf("field %d %s (schema %s:%s): %s", i, f.Name, q.Name, q.Type, why))
 		}
+		// two neighbouring parameters of one type can only be told apart by name: a field that carries the
+		// name of ANOTHER parameter of the same definition sits at that parameter's position in every user's
+		// mind and at this one on the wire. (A hand-written type may shorten a name - Code for error_code -
+		// so a name no parameter has is not a disagreement.)
+		n++
+		for j, other := range ps {
+			if j != i && foldName(other.Name) == foldName(f.Name) && foldName(q.Name) != foldName(f.Name) {
+				diffs = append(diffs, sprintf("field %d is named %s, which is schema parameter %d (%s); parameter %d is %s: the struct lists its fields in another order than the schema", i, f.Name, j, other.Name, i, q.Name))
+			}
+		}
 	}
 	return
+}
+
+// foldName reduces a schema parameter name (snake_case or lowerCamel) and a Go field name (UpperCamel with
+// initialisms) to the same spelling: letters and digits only, lower case.
+func foldName(s string) string {
+	var b strings.Builder
+	for _, r := range strings.ToLower(s) {
+		if r == '_' {
+			continue
+		}
+		b.WriteRune(r)
+	}
+	return b.String()
 }
 
 func c13(c *Ctx) {
